@@ -83,7 +83,9 @@ def run_contracts(modname, names=None, timeout=30, nproc=16):
     jobs = [(path, n, lines[n], timeout) for n in todo]
     twin_dir, twin_path = _write_twins(modname, path, todo)
     tlines = _lines(twin_path)
-    jobs += [(twin_path, '_twin' + n, tlines['_twin' + n], timeout) for n in todo]
+    # a twin stops as soon as one path completes (seconds, normally); it gets twice the condition's budget so that a slow or
+    # loaded machine does not turn a merely slow condition into a vacuity report
+    jobs += [(twin_path, '_twin' + n, tlines['_twin' + n], timeout * 2) for n in todo]
     results = []
     twins = {}
     with cf.ThreadPoolExecutor(max_workers=nproc) as pool:
